@@ -122,6 +122,7 @@ type Stats struct {
 	JumpChecks   int            `json:"jump_side_condition_checks"`
 	WallS        float64        `json:"wall_s"`
 	DistinctOuts map[string]int `json:"distinct_outcomes"`
+	PanicKinds   map[string]int `json:"tx_panic_kinds"`
 }
 
 type Output struct {
@@ -227,6 +228,7 @@ func NewExplorer(w *world.World, sc *Scenario, shard, of int, outPath string, de
 	e.stats.OKByKind = map[string]int{}
 	e.stats.FailByKind = map[string]int{}
 	e.stats.DistinctOuts = map[string]int{}
+	e.stats.PanicKinds = map[string]int{}
 	go e.watchdog()
 	return e
 }
@@ -535,6 +537,7 @@ func (e *Explorer) step(s *State, pctx sdk.Context, op *Op, remaining int) {
 			e.stats.FailByKind[op.Kind]++
 			if res.Panic {
 				e.stats.PanicTx++
+				e.stats.PanicKinds[op.Kind+": "+normPanic(res.Err)]++
 			}
 			if res.OutOfGas {
 				e.stats.OutOfGas++
